@@ -222,3 +222,48 @@ Theorem C04_history_nonvacuous :
              pres s' = [(1, 2, cfgA); (2, 1, cfgB)]%N /\ pres s' = expect_pres 0 0 [h_A; h_B].
 Proof. exact history_nonvacuous. Qed.
 Print Assumptions C04_history_nonvacuous.
+
+(* ---- the three lower layers composed (C04/C04Pipeline.v): coder (C01 model) -> Noise transport (any
+   cipher with: opening a sealed frame under the same counter returns the plaintext; sealing adds the
+   16-byte tag) -> segments (C05 model) ~ ANY cutting of the byte stream into network reads ~ segments
+   -> transport -> coder.  "Every stanza sent ... arrives at the other side intact and in sending
+   order": for every list of well-formed stanzas the sending side accepted and every chunking, the
+   receiving side hands up exactly those stanzas, in order, each once, and buffers nothing. *)
+From YV Require Import C01.C01Model C01.C01Encode C01.C01Inst Gen.C01Dict C05.C05Model C05.C05Proofs C04.C04Pipeline.
+
+Theorem C04_pipeline_intact : forall seal open_,
+  (forall n p, open_ n (seal n p) = Some p) ->
+  (forall n p, length (seal n p) = length p + 16) ->
+  forall inflate ts writes chunks,
+  Forall (C01Encode.wf_node D) ts -> send_all seal 0 ts = Some writes ->
+  concat chunks = concat writes ->
+  recv_all open_ inflate chunks = Some (map (fun t => Ok (Some t)) ts, []).
+Proof. exact pipeline_intact_thm. Qed.
+Print Assumptions C04_pipeline_intact.
+
+(* ... and while the stream is still arriving: after the images of the first k sealed stanzas and a strict
+   prefix of the next frame, exactly the first k stanzas were handed up; the unfinished frame waits. *)
+Theorem C04_pipeline_prefix : forall seal open_,
+  (forall n p, open_ n (seal n p) = Some p) ->
+  (forall n p, length (seal n p) = length p + 16) ->
+  forall inflate ts writes chunks k partial,
+  Forall (C01Encode.wf_node D) ts -> send_all seal 0 ts = Some writes ->
+  (exists bs, enc_all ts = Some bs /\
+     concat chunks = concat (map C05Model.wire (firstn k (seal_all seal 0 bs))) ++ partial) ->
+  incomplete partial ->
+  recv_all open_ inflate chunks = Some (map (fun t => Ok (Some t)) (firstn k ts), partial).
+Proof. exact pipeline_prefix_thm. Qed.
+Print Assumptions C04_pipeline_prefix.
+
+(* non-vacuity: the cipher hypotheses are satisfiable and a concrete run exists *)
+Theorem C04_pipeline_nonvacuous :
+  (forall n p, toy_open n (toy_seal n p) = Some p) /\
+  (forall n p, length (toy_seal n p) = length p + 16) /\
+  match send_all toy_seal 0 ex_pair with
+  | Some writes =>
+      recv_all toy_open (fun _ => None) (chop 5 (length (concat writes)) (concat writes))
+      = Some ([Ok (Some ex_tree); Ok (Some ex_tree)], [])
+  | None => False
+  end.
+Proof. exact (conj toy_open_seal (conj toy_seal_len pipeline_example)). Qed.
+Print Assumptions C04_pipeline_nonvacuous.
